@@ -1,6 +1,7 @@
 mod c01;
 mod c02;
 mod c04;
+mod c05;
 mod c06;
 mod c07;
 mod syn;
@@ -43,6 +44,9 @@ fn main() {
       println!("cbor({}): {}", hex(&b), verdicts::cbor_slice(&schema, &b).short());
     }
     return;
+  }
+  if args[1] == "c05-worker" {
+    return c05::worker_main(&args[2..]);
   }
   if args[1] == "c14-hist" {
     return c14::hist_main(&args[2]);
@@ -96,6 +100,7 @@ fn main() {
       "C14" => c14::replay(&j["case"], j["kind"].as_str().unwrap_or("")),
       "C06" => c06::replay(&j["case"]),
       "C20" => c20::replay(&j["case"]),
+      "C05" => c05::replay(&j["case"]),
       "C08" => c08::replay(&j["case"]),
       "C02" => c02::replay(&j["case"], j["kind"].as_str().unwrap_or("")),
       "C04" => c04::replay(&j["case"]),
@@ -131,6 +136,7 @@ fn main() {
     "C10" => c10::run(tier),
     "C06" => c06::run(tier),
     "C20" => c20::run(tier),
+    "C05" => c05::run(tier),
     "C08" => c08::run(tier),
     "C02" => c02::run(tier),
     "C04" => c04::run(tier),
